@@ -21,6 +21,23 @@ pub const QUALS: [&str; 8] = ["t1", "t2", "t3", "a1", "a2", "a3", "c1", "c2"];
 pub const QCOLS: [&str; 5] = ["id", "p", "q", "r", "s"];
 pub const ITEM_ALIASES: [&str; 4] = ["x1", "x2", "x3", "x4"];
 
+/// the value that stands for entry `x` of an ORDER BY FIELD list: mostly the integer itself, every fourth entry (x = 3) a text with a
+/// quote and a backslash (FIELD lists are inlined through the backend's literal writer)
+pub fn field_value(x: i64) -> Value {
+    match field_text(x) {
+        Some(t) => Value::String(Some(Box::new(t))),
+        None => Value::BigInt(Some(x)),
+    }
+}
+
+pub fn field_text(x: i64) -> Option<String> {
+    if x.rem_euclid(4) == 3 {
+        Some(format!("it's \\{x}"))
+    } else {
+        None
+    }
+}
+
 /// name of a select-item alias: x1..x4, or (from 100) the name of a fixture column — used where a derived CTE column list must
 /// keep the names the outer statement refers to
 pub fn item_alias(a: u8) -> &'static str {
@@ -395,7 +412,7 @@ fn add_order<S: OrderedStatement>(s: &mut S, o: &OrdSpec, d: Dialect) {
     let order = match &o.dir {
         Dir::Asc => Order::Asc,
         Dir::Desc => Order::Desc,
-        Dir::Field(v) => Order::Field(Values(v.iter().map(|x| Value::BigInt(Some(*x))).collect())),
+        Dir::Field(v) => Order::Field(Values(v.iter().map(|x| field_value(*x)).collect())),
     };
     match o.nulls {
         None => {
@@ -673,9 +690,15 @@ pub fn build_select(s: &SelectSpec, d: Dialect) -> SelectStatement {
             }
             9 => {
                 if let Some(l) = s.limit {
+                    if s.api % 7 == 4 {
+                        q.limit(l + 17); // a setter: the later call replaces the earlier one
+                    }
                     q.limit(l);
                 }
                 if let Some(o) = s.offset {
+                    if s.api % 7 == 4 {
+                        q.offset(o + 3);
+                    }
                     q.offset(o);
                 }
             }
@@ -794,6 +817,9 @@ pub fn build_insert(s: &InsertSpec, d: Dialect) -> InsertStatement {
     if s.replace {
         q.replace();
     }
+    if s.api % 7 == 4 {
+        q.into_table(al("decoy")); // replaced by the next call
+    }
     q.into_table(al(TABLES[s.table as usize % 3]));
     q.columns(s.columns.iter().map(|c| al(T3COLS[*c as usize % 6])).collect::<Vec<_>>());
     match &s.source {
@@ -838,6 +864,9 @@ pub fn build_insert(s: &InsertSpec, d: Dialect) -> InsertStatement {
 
 pub fn build_update(s: &UpdateSpec, d: Dialect) -> UpdateStatement {
     let mut q = Query::update();
+    if s.api % 7 == 4 {
+        q.table(al("decoy"));
+    }
     q.table(al(TABLES[s.table as usize % 3]));
     if s.api % 2 == 0 {
         for (c, e) in &s.sets {
@@ -880,6 +909,9 @@ pub fn build_update(s: &UpdateSpec, d: Dialect) -> UpdateStatement {
 
 pub fn build_delete(s: &DeleteSpec, d: Dialect) -> DeleteStatement {
     let mut q = Query::delete();
+    if s.api % 7 == 4 {
+        q.from_table(al("decoy"));
+    }
     q.from_table(al(TABLES[s.table as usize % 3]));
     for (i, w) in s.wheres.iter().enumerate() {
         add_where(&mut q, w, d, s.api.wrapping_add(i as u8));
